@@ -38,6 +38,10 @@ const (
 	// secondsToNanoseconds is used to convert float seconds to nanoseconds.
 	secondsToNanoseconds = 1.0e9
 
+	// maxDurationNanoseconds is 2^63, the first float64 that no longer fits
+	// into a time.Duration.
+	maxDurationNanoseconds = 9223372036854775808.0
+
 	// zeroThreshold is used to decide if two coordinates are on top of each
 	// other.
 	zeroThreshold = 1.0e-6
@@ -127,18 +131,24 @@ func (c *Coordinate) DistanceTo(other *Coordinate) time.Duration {
 	}
 
 	dist := c.rawDistanceTo(other)
-	adjustedDist := dist + c.Adjustment + other.Adjustment
+	// Add the two adjustments first: floating-point addition is commutative but
+	// not associative, so this keeps the estimate the same in both directions.
+	adjustedDist := dist + (c.Adjustment + other.Adjustment)
 	if adjustedDist > 0.0 {
 		dist = adjustedDist
 	}
-	return time.Duration(dist * secondsToNanoseconds)
+	// Saturate instead of overflowing the conversion to nanoseconds.
+	if ns := dist * secondsToNanoseconds; ns < maxDurationNanoseconds {
+		return time.Duration(ns)
+	}
+	return time.Duration(math.MaxInt64)
 }
 
 // rawDistanceTo returns the Vivaldi distance between this coordinate and the
 // other coordinate in seconds, not including adjustments. This assumes the
 // dimensions have already been checked to be compatible.
 func (c *Coordinate) rawDistanceTo(other *Coordinate) float64 {
-	return magnitude(diff(c.Vec, other.Vec)) + c.Height + other.Height
+	return magnitude(diff(c.Vec, other.Vec)) + (c.Height + other.Height)
 }
 
 // add returns the sum of vec1 and vec2. This assumes the dimensions have
